@@ -33,8 +33,10 @@ def generate(rng, tier, prop):
     subject = rng.choice(SUBJECTS)
     cfg = {"subject": subject}
     if subject == "entry":
-        if rng.random() < 0.35:
+        if rng.random() < 0.45:
             cfg["source"] = rng.choice(SOURCES)
+            # "starting from arbitrary parsed entries": parsed under which stack is arbitrary too (middleware metadata)
+            cfg["source_stack"] = rng.choice(["none", "default", "default", "sort_alpha", "sort_custom", "normkeys", "month"])
         else:
             ks = rng.sample(KEYS, rng.randint(0, 4))
             cfg["init"] = {"type": rng.choice(TYPES), "key": rng.choice(BKEYS),
@@ -190,7 +192,15 @@ def execute(run, props):
     if subject == "entry":
         m = EModel()
         if "source" in cfg:
-            lib = EP.parse_string(cfg["source"], parse_stack=[])
+            from ..repo import mws
+            st = cfg.get("source_stack", "none")
+            kw = {"none": {"parse_stack": []}, "default": {},
+                  "sort_alpha": {"append_middleware": [mws.SortFieldsAlphabeticallyMiddleware()]},
+                  "sort_custom": {"append_middleware": [mws.SortFieldsCustomMiddleware(order=("year", "title"))]},
+                  "normkeys": {"parse_stack": [mws.NormalizeFieldKeys()]},
+                  "month": {"append_middleware": [mws.MonthIntMiddleware()]}}[st]
+            lib = EP.parse_string(cfg["source"], **kw)
+            res.probes["entry_parsed_with_" + st] += 1
             ents = lib.entries
             if len(ents) != 1:
                 res.precondition_miss += 1
